@@ -99,7 +99,14 @@ class _StdApi:
             Iterating over these yields a bytecode operation as Instruction instances.
             """
 
-            def __init__(self, x, first_line=None, current_offset=None, opc=None):
+            def __init__(
+                self,
+                x,
+                first_line=None,
+                current_offset=None,
+                opc=None,
+                show_caches=False,
+            ):
                 if opc is None:
                     opc = std_opc
                 _Bytecode.__init__(
@@ -110,6 +117,13 @@ class _StdApi:
                     current_offset=current_offset,
                     dup_lines=False,
                 )
+                self.show_caches = show_caches
+
+            def __iter__(self):
+                # Like dis, hide the inline CACHE entries of 3.11+ unless asked.
+                for inst in _Bytecode.__iter__(self):
+                    if self.show_caches or inst.opname != "CACHE":
+                        yield inst
 
         self.Bytecode = Bytecode
 
@@ -227,7 +241,7 @@ class _StdApi:
             is_graal=self.is_graal,
         )
 
-    def get_instructions(self, x, first_line=None):
+    def get_instructions(self, x, first_line=None, show_caches=False):
         """Iterator for the opcodes in methods, functions or code
 
         Generates a series of Instruction named tuples giving the details of
@@ -238,7 +252,10 @@ class _StdApi:
         Otherwise, the source line information (if any) is taken directly from
         the disassembled code object.
         """
-        return self.Bytecode(x).get_instructions(x, first_line)
+        for inst in self.Bytecode(x).get_instructions(x, first_line):
+            # Like dis, hide the inline CACHE entries of 3.11+ unless asked.
+            if show_caches or inst.opname != "CACHE":
+                yield inst
 
     def findlinestarts(self, code):
         """Find the offsets in a byte code which are start of lines in the source.
